@@ -135,6 +135,9 @@ def result_ok(op, res):
         if not isinstance(res.eos, bool):
             return False
         c = res.context
+        if not res.eos and c is None:
+            # an enumeration that is not exhausted has a context to go on with
+            return False
         if not (c is None or (isinstance(c, tuple) and len(c) == 2 and
                               isinstance(c[0], str) and
                               isinstance(c[1], str))):
@@ -362,6 +365,34 @@ ALLOWED = {
 }
 
 
+def wbem_uri_text(rng):
+    """A WBEM URI of an instance or class path - well-formed, or damaged the
+    way a cut-off or concatenated string is."""
+    n = rng.choice([1, 5, 30, 60, 200, 2000])
+    filler = rng.choice(['x', 'ab ', '\u00e4', 'a=b,', "it''s", '\\\\',
+                         'a\\"b'])
+    val = (filler * n)[:n]
+    q = rng.choice(['"', '"', "'"])
+    keys = ['k1=%s%s%s' % (q, val, q), 'k2=42', 'k3=%sshort%s' % (q, q)]
+    rng.shuffle(keys)
+    uri = rng.choice(['', '//host:5989', 'https://host']) + \
+        rng.choice(['/root/cimv2:', '/', '']) + 'CIM_Foo.' + \
+        ','.join(keys[:rng.choice([1, 2, 3])])
+    how = rng.choice(['good', 'cut', 'stray', 'unbalanced', 'newline',
+                      'doubled'])
+    if how == 'cut':
+        uri = uri[:rng.randint(max(1, len(uri) - n - 3), len(uri) - 1)]
+    elif how == 'stray':
+        uri += rng.choice(['x', ' ', ',', '=', '"', "'", '\\'])
+    elif how == 'unbalanced':
+        uri = uri.replace(q, '', 1)
+    elif how == 'newline':
+        uri += '\n' + uri
+    elif how == 'doubled':
+        uri = uri + ',' + uri
+    return uri
+
+
 def mutate(rng, data, pool):
     """Structure-aware mutation of a valid response document."""
     et = etree()
@@ -376,8 +407,50 @@ def mutate(rng, data, pool):
                        'el-swap', 'el-foreign', 'value-null', 'el-rename',
                        'attr-add', 'deep', 'context', 'context', 'context',
                        'context', 'context', 'context'])
+    pullp = [e for e in els if e.tag == 'PARAMVALUE' and
+             e.get('NAME') in ('EnumerationContext', 'EndOfSequence')]
+    retv = [e for e in els if e.tag in ('RETURNVALUE', 'PARAMVALUE') and
+            e.get('NAME') not in ('EnumerationContext', 'EndOfSequence')]
+    if pullp and rng.random() < 0.3:
+        kind = 'pull-params'
+    elif retv and rng.random() < 0.3:
+        kind = 'uri-value'
     try:
-        if kind == 'context':
+        if kind == 'pull-params':
+            # every combination of the two control parameters of the pull
+            # operations: context present/empty/NULL/absent x end-of-sequence
+            for e in pullp:
+                how = rng.choice(['keep', 'keep', 'empty', 'null', 'absent',
+                                  'token', 'blank'])
+                if how == 'keep':
+                    continue
+                if how == 'absent':
+                    e.getparent().remove(e)
+                    continue
+                for c in list(e):
+                    e.remove(c)
+                if how == 'null':
+                    continue
+                v = et.SubElement(e, 'VALUE')
+                if e.get('NAME') == 'EndOfSequence':
+                    v.text = {'empty': None, 'blank': ' ',
+                              'token': rng.choice(['FALSE', 'TRUE', 'false',
+                                                   'True', '0', '1', 'no'])
+                              }[how]
+                else:
+                    v.text = {'empty': None, 'blank': ' ',
+                              'token': rng.choice(TOKENS)}[how]
+                kind += ':%s=%s' % (e.get('NAME')[:3], how)
+        elif kind == 'uri-value':
+            # a reference given as WBEM URI string in a VALUE element
+            rv = [x for x in retv if x.tag == 'RETURNVALUE']
+            e = rng.choice(rv if rv and rng.random() < 0.6 else retv)
+            for c in list(e):
+                e.remove(c)
+            e.set('PARAMTYPE', 'reference')
+            v = et.SubElement(e, 'VALUE')
+            v.text = wbem_uri_text(rng)
+        elif kind == 'context':
             cands = [e for e in els if e.tag in ALLOWED]
             top = [e for e in cands if e.tag in ('IRETURNVALUE', 'PARAMVALUE',
                                                  'RETURNVALUE')]
@@ -539,7 +612,83 @@ HTTP_VARIANTS = [
 ]
 
 
+MEDIA_TYPES = ['text/html', 'text/plain', 'application/xml', 'text/xml',
+               'application/json', 'APPLICATION/XML', 'application/xml+cim',
+               'text/xmlx', '']
+CHARSET_PARAMS = ['', '; charset=utf-8', '; charset="utf-8"',
+                  '; charset=latin-1', '; charset=utf8mb4',
+                  '; charset=x-user-defined', '; charset=binary',
+                  '; charset=', '; charset=utf_8_', '; charset=UTF-16',
+                  '; charset=idna', '; charset=undefined', '; charset=hex',
+                  '; charset=zlib', '; charset=base64', '; charset=rot13',
+                  '; charset=punycode', '; charset=unicode_escape',
+                  '; charset=utf-8; charset=latin-1', ';charset', '; q=0.5']
+
+
+def underlying_exception(rng):
+    """The low-level exception urllib3 or requests wraps - with and without
+    arguments."""
+    import http.client
+    import socket
+    import ssl
+    return rng.choice([
+        lambda: ConnectionResetError(104, 'Connection reset by peer'),
+        ConnectionAbortedError, OSError, TimeoutError, BrokenPipeError,
+        lambda: BrokenPipeError(32, 'Broken pipe'),
+        http.client.NotConnected, http.client.ImproperConnectionState,
+        lambda: http.client.RemoteDisconnected(
+            'Remote end closed connection without response'),
+        lambda: http.client.IncompleteRead(b'abc', 10),
+        lambda: http.client.BadStatusLine('x'),
+        ssl.SSLError, lambda: ssl.SSLError(1, '[SSL] bad (_ssl.c:1000)'),
+        lambda: ssl.SSLCertVerificationError(1, 'certificate verify failed'),
+        socket.timeout, lambda: socket.gaierror(-2, 'Name or service'),
+        lambda: OSError(None, None), lambda: OSError(''),
+        lambda: UnicodeError('label empty or too long'),
+        lambda: Exception(), lambda: Exception(None),
+        lambda: Exception(b'bytes'), lambda: Exception(('a', 1)),
+    ])()
+
+
+def wrapped_fault(rng):
+    """The shapes in which requests and urllib3 report a failure: the
+    underlying exception wrapped once, twice or three times."""
+    U = urllib3.exceptions
+    RE = requests.exceptions
+    under = underlying_exception(rng)
+    level1 = rng.choice([
+        lambda: U.ProtocolError('Connection aborted.', under),
+        lambda: U.ProtocolError(under),
+        lambda: U.NewConnectionError(None, 'Failed to establish: %s' % under),
+        lambda: U.ConnectTimeoutError(None, 'Connection timed out'),
+        lambda: U.ReadTimeoutError(None, '/cimom', 'Read timed out.'),
+        lambda: U.SSLError(under),
+        lambda: U.ResponseError('too many 503 error responses'),
+        lambda: U.ProxyError('Cannot connect to proxy.', under),
+        lambda: U.DecodeError('decode', under),
+        lambda: U.InvalidHeader('hdr'),
+        lambda: U.LocationParseError('loc'),
+        lambda: under,
+    ])()
+    level2 = rng.choice([
+        lambda: level1,
+        lambda: U.MaxRetryError(None, '/cimom', level1),
+        lambda: U.MaxRetryError(None, '/cimom', None),
+    ])()
+    cls = rng.choice([RE.ConnectionError, RE.ConnectionError, RE.SSLError,
+                      RE.ReadTimeout, RE.ConnectTimeout, RE.ProxyError,
+                      RE.RetryError, RE.ChunkedEncodingError,
+                      RE.ContentDecodingError, RE.RequestException, None])
+    if cls is None:
+        return level2 if isinstance(level2, U.HTTPError) else \
+            RE.ConnectionError(level2)
+    return rng.choice([lambda: cls(level2), lambda: cls(level2, 'extra'),
+                       lambda: cls(str(level2))])()
+
+
 def transport_fault(rng):
+    if rng.random() < 0.5:
+        return wrapped_fault(rng)
     me = urllib3.exceptions.MaxRetryError
     pool = None
     causes = [
@@ -691,6 +840,12 @@ def run_case(ctx, i, rng):
                     '{tok}', rng.choice(TOKENS)).encode('utf-8')
         elif rclass == 'http':
             status, headers = rng.choice(HTTP_VARIANTS)
+            if rng.random() < 0.35:
+                # a composed Content-type: media type x charset parameter
+                status = rng.choice([200, 200, 200, 401, 500])
+                headers = dict(headers or {})
+                headers['Content-type'] = rng.choice(MEDIA_TYPES) + \
+                    rng.choice(CHARSET_PARAMS)
             body = valid_answer(request) if rng.random() < 0.5 else b''
             if headers is not None and 'Content-type' not in headers and \
                     status != 200:
